@@ -283,9 +283,6 @@ fn parse_op(toks: &[&str]) -> Result<Op, BadCase> {
                 return Err(BadCase);
             }
             let failat: i64 = p_num(args[3])?;
-            if failat < -1 {
-                return Err(BadCase);
-            }
             Op::R {
                 entry,
                 target: p_str(args[1])?,
@@ -488,11 +485,18 @@ impl Write for FailWriter {
         if fails {
             return Err(io::Error::other("boom"));
         }
-        s.accepted.extend_from_slice(buf);
+        // failat <= -2 encodes a writer that never fails but accepts at most (-failat - 1) bytes per call
+        // (a pipe, a socket): the caller has to loop
+        let take = if self.failat <= -2 {
+            buf.len().min((-self.failat - 1) as usize)
+        } else {
+            buf.len()
+        };
+        s.accepted.extend_from_slice(&buf[..take]);
         if !buf.is_empty() {
             s.nwrites += 1;
         }
-        Ok(buf.len())
+        Ok(take)
     }
 
     fn flush(&mut self) -> io::Result<()> {
